@@ -1,7 +1,60 @@
-(* C05 — A non-void function always returns a value from a return statement. *)
+(* C05 — A non-void function always returns a value from a return statement.
+   Model: Models/Returns.v (port of cfg.go + analyzer.go for the tree with fixes/C05-*.patch applied) and the path
+   semantics run_* over abstract guard outcomes; Models/ReturnsSpec.v is the specification-side decision procedure. *)
 From Coq Require Import List Bool Arith.
-From FV Require Import Models.Returns Proofs.ReturnsP.
+From FV Require Import Models.Returns Models.ReturnsSpec Proofs.ReturnsDfs Proofs.ReturnsSpecP.
 
-Theorem C05_nonvacuous : accepted PFunc ex_body = true /\ accepted PFuncLit ex_body = true.
+(* The property at full strength (NOT proved in general, see C05_sound_small_partial and C05_sound_given_cover_partial):
+   an accepted body, in any of the three positions, ends every terminating execution in `return <value>`. *)
+Definition C05_full : Prop :=
+  forall p body, accepted p body = true -> returns_value_always body.
+
+(* The specification is decidable, and decided exactly by the compositional analysis outs_*: the theorem quantifies
+   over all bodies, nesting depths and guard assignments (any iteration count, "no arm matches"). *)
+Theorem C05_spec_decided :
+  forall body, spec_ok body = true <-> returns_value_always body.
+Proof. exact spec_ok_iff. Qed.
+Print Assumptions C05_spec_decided.
+
+Theorem C05_falls_off_decided :
+  forall body, falls_off body <-> o_n (outs_block body) = true.
+Proof. exact falls_off_iff. Qed.
+Print Assumptions C05_falls_off_decided.
+
+(* AllPathsReturn's search is complete on every graph: it answers true only if no path entry ->* exit avoids the
+   blocks whose Returns flag is set (unbounded: any graph, any fuel outcome). *)
+Theorem C05_search_complete :
+  forall t, all_paths_return t = true -> ~ path t ENTRY EXIT.
+Proof. exact all_paths_return_no_path. Qed.
+Print Assumptions C05_search_complete.
+
+(* Soundness of acceptance, reduced to the one remaining obligation about buildBlock/buildIf/...: the built graph
+   contains a path for every falling run. *)
+Theorem C05_sound_given_cover_partial :
+  forall body p, graph_covers_runs body -> accepted p body = true -> ~ falls_off body.
+Proof. exact accepted_no_fall_given_cover. Qed.
+Print Assumptions C05_sound_given_cover_partial.
+
+(* C05_full for every body of the exhaustive family In_small (76 650 bodies: all nesting-depth-1 statements over
+   {simple, return v, return, break, continue} in blocks of length <= 2, and each of them under one more
+   while(true)/while/for/if/if-else/match/match-default level), in the three positions. *)
+Theorem C05_sound_small_partial :
+  forall b p, In_small b -> accepted p b = true -> returns_value_always b.
+Proof. exact small_bodies_sound. Qed.
+Print Assumptions C05_sound_small_partial.
+
+(* non-vacuity: a body with early return, while(true)+break, match without and with default is accepted in all
+   three positions and satisfies the specification *)
+Theorem C05_nonvacuous :
+  accepted PFunc ex_body = true /\ accepted PMethod ex_body = true /\ accepted PFuncLit ex_body = true /\
+  returns_value_always ex_body.
 Proof. exact nonvacuous_accept. Qed.
 Print Assumptions C05_nonvacuous.
+
+(* the three defects repaired by fixes/C05-*.patch: the bodies violate the specification and are now rejected *)
+Theorem C05_repaired_defects_rejected :
+  accepted PFunc ex_match_nodefault = false /\ falls_off ex_match_nodefault /\
+  accepted PFuncLit ex_lit_missing = false /\ falls_off ex_lit_missing /\
+  accepted PFunc ex_bare = false /\ run_block ex_bare (OReturn false).
+Proof. exact repaired_defects_rejected. Qed.
+Print Assumptions C05_repaired_defects_rejected.
